@@ -177,7 +177,7 @@ def run(ctx):
                         continue
                     c = sel[i]
                     detail.append({k: c[k] for k in ("Entries", "Msg", "Matches", "IsProto", "Ser", "Deser", "Fast", "RResolve", "RDSer", "RDDeser")})
-                ctx.tie_broken("model-vs-implementation resolveSerializer/serializerDispatch (%d of %d cases differ)" % (mism, len(sel)), detail)
+                ctx.tie_broken("model-vs-implementation: dispatch cases (resolveSerializer/serializerDispatch) and wire cases (Terminated/PoisonPill frames): %d of %d differ" % (mism, len(sel) + n_wire), detail)
 
     if not ctx.coq_property():
         if not any(f.kind == "violation" for f in ctx.findings):
